@@ -64,6 +64,9 @@ def r1(ctx):
         calls = [(c[1], c[2]) for c in lf.trace if c[0] == "call"]
         adds = [c for c in calls if c[0] == ADD]
         seen.add(g[0])
+        # the result may carry the gate's value itself (`is_valid`): read it under this path's condition
+        if lf.ret[0] == "adt" and lf.ret[1] == MR:
+            lf.ret = lf.ret[:3] + (tuple((T.TRUE if g[0] else T.FALSE) if x == gate else x for x in lf.ret[3]),)
         if g[0] == 0:
             ok = lf.ret == ("adt", MR, "MoveResult", (T.FALSE, T.FALSE)) and not adds
             final = eng.freeze(lf.state, lf.ext.get(("param", 0, "self"), slf))
